@@ -300,6 +300,9 @@ func genbankReferenceParser(gb *GenBank, depth int) pars.Parser {
 		ref := Reference{Number: result.Value.(int)}
 
 		paddingLength := 3 - len(strconv.Itoa(ref.Number))
+		if paddingLength < 0 {
+			paddingLength = 0
+		}
 		paddingParser := pars.String(strings.Repeat(" ", paddingLength))
 		paddingParser(state, pars.Void)
 		pars.Line(state, result)
